@@ -1,6 +1,6 @@
 module verif/harness
 
-go 1.24.9
+go 1.26
 
 require (
 	github.com/lightninglabs/lightning-node-connect/gbn v1.0.0
